@@ -689,6 +689,13 @@ def rule_view_filter(P):
         f = P.func(f"wfsa/base.py::WFSA.{name}")
         r.looked_at(f)
         ys = [n for n in walk_live(f.node) if isinstance(n, ast.Yield)]
+        yf = [n for n in walk_live(f.node) if isinstance(n, ast.YieldFrom)]
+        rets = [n for n in walk_live(f.node) if isinstance(n, ast.Return) and n.value is not None]
+        whole = [n for n in yf + rets if W.cnorm(f.node, n.value, n) in (f"self.{chart}.items()", f"iter(self.{chart}.items())", f"list(self.{chart}.items())")]
+        if whole:
+            r.add(f, whole[0], False, f"view {name} hands out every entry of self.{chart} unfiltered: zero-weight entries (set_{name}(q, zero), cancellation "
+                  f"a + (-a), push) are then treated as {'initial' if name == 'I' else 'final'} states by trim/reverse/rename/composition")
+            continue
         if len(ys) != 1:
             r.undecided(f, f.node, f"view {name}: expected a single yield")
             continue
